@@ -298,7 +298,18 @@ KwStep(d, c, sg) ==
   ELSE IF sg.kw = "has_child" /\ np = 1 /\ p = "" THEN NoneInfo
   ELSE IF sg.kw = "has_child" THEN
     (IF np # 1 THEN YPErr
-     ELSE IF Ch(p, 1) = "&" THEN NoneInfo                               \* anchored-child variant: not modelled
+     ELSE IF Ch(p, 1) = "&" THEN
+        \* CHANGES 3.6.x: "&NAME ... switches the function to match against Anchor/Alias names" (keywordsearches.py:222-336);
+        \* key anchors and merge keys are outside the node table
+        (LET nm == Tail(p)
+             HasA(i) == \E j \in 1..Len(d[i].kids) : d[d[i].kids[j]].anchor = nm IN
+         IF nm = "" \/ IsVirt(c) THEN NoneInfo
+         ELSE IF kind = "map" THEN Res(IF Cond(HasA(c.id), sg.inv) THEN <<c>> ELSE <<>>, FALSE)
+         ELSE IF kind = "seq" THEN
+            (IF \A j \in 1..Len(es) : d[es[j]].k = "map" \/ (d[es[j]].k = "s" /\ d[es[j]].t = "null")      \* node_is_aoh(accept_nulls)
+             THEN Res(IdsToCurs(SortIds({es[j] : j \in {x \in 1..Len(es) : d[es[x]].k = "map" /\ Cond(HasA(es[x]), sg.inv)}})), FALSE)
+             ELSE Res(IF Cond(HasA(c.id), sg.inv) THEN <<c>> ELSE <<>>, FALSE))
+         ELSE NoneInfo)
      ELSE IF kind = "map" THEN Res(IF Cond(StrKeyPos(d[c.id], p) # {}, sg.inv) THEN <<c>> ELSE <<>>, FALSE)
      ELSE IF kind = "seq" THEN
         (IF \A j \in 1..Len(es) : d[es[j]].k = "map"                  \* node_is_aoh without nulls
